@@ -105,6 +105,13 @@ func (g *revGen) stackCfg(unwrappable bool) Cfg {
 	if g.r.Intn(8) == 0 {
 		c.Fifo = true
 	}
+	// presentation settings of the kind word must not matter to Reveal (a folded / symbolic NOT is still a NOT)
+	if g.r.Intn(5) == 0 {
+		c.Opt |= fFold
+	}
+	if c.Kind != 4 && g.r.Intn(6) == 0 {
+		c.Sym = []string{"!", "~", "not"}[g.r.Intn(3)]
+	}
 	c.ID = fmt.Sprintf("s%d", g.nextID)
 	g.nextID++
 	return c
